@@ -41,6 +41,26 @@ func (s Schema) WithOwnTypes() *Schema {
 	}
 }
 
+// WithRootNode returns a schema with the given root node and the same table of
+// types (the table itself, not a copy of it).
+func (s Schema) WithRootNode(node Node) *Schema {
+	return &Schema{
+		types:    s.types,
+		rootNode: node,
+	}
+}
+
+// ReplaceTypeSchema makes the name stand for the given schema. Everything else
+// known about the type (the file it comes from, its place in it) stays.
+func (s *Schema) ReplaceTypeSchema(name string, schema *Schema) {
+	t, ok := s.types[name]
+	if !ok {
+		panic(errors.Format(errors.ErrTypeNotFound, name))
+	}
+	t.schema = schema
+	s.types[name] = t
+}
+
 // MustType returns *Schema or panic if not found.
 // Deprecated: use Schema.MustType instead
 func (s Schema) MustType(name string) *Schema {
